@@ -22,7 +22,7 @@ ERRORS = {1: "unclosed string literal", 2: "unclosed character literal", 3: "ove
 WARNS = {1: "invalid hex escape", 2: "invalid octal escape", 3: "unrecognized backslash escape"}
 
 ALPHABET = list("abrRxX019 \t\n\r\"'\\/*#<>:(),;-+@{}_.") + ["\x00", "\x0b", "\x1c", "\x7f", "x", "n", "t", "8", "7"]
-SNIPPETS = ["SET(R1, 5)", "// c\n", "/* c */", "/*", "*/", '"a\\n"', '"\\x41"', '"\\x4"', '"\\101"', '"\\9"', '"\\q"', "'a'",
+SNIPPETS = ["NOP()  /* a\n  b */ FOO(1)", "\tx /* c\n\n*/y", "SET(R1, 5)", "// c\n", "/* c */", "/*", "*/", '"a\\n"', '"\\x41"', '"\\x4"', '"\\101"', '"\\9"', '"\\q"', "'a'",
             "'\\n'", "'ab'", "#include", "#include <x.h>", '#include "f"', "<abc", ":fmt", ":", "0x1F", "0b101", "0o17",
             "0xZZ", "R12", "Rt", "FP_alt", "PC_ret", "r", "R", "_a1", "\\", '"\\', "'\\", '"\\x', "12ab", "0xg", "-5",
             "LABEL(x)", "\n\n", "\t", " ", '"unterminated', "'", '"', "/", "//", "/*/", "/**/", "a/*b*/c", "0", "00", "0b",
@@ -100,6 +100,16 @@ def compare(tag, texts):
             if not m["oob"] and r["raise"] == "IndexError":
                 res["disagreements"].append({"text": t, "what": "implementation raised IndexError, model did not read past the end"})
             continue
+        # C17, on the implementation alone: the text at the reported line and column is the token
+        lines = t.split("\n")
+        for ty, v, line, col in r["tokens"]:
+            if ty in ("SYMBOL", "REGISTER", "INT", "INCLUDE", "MINUS", "AT", "ASTERISK", "PLUS", "SLASH", "LPAREN", "RPAREN",
+                      "LBRACE", "RBRACE", "COMMA", "SEMICOLON", "UNKNOWN") and isinstance(v, str) and v:
+                if not (1 <= line <= len(lines) and lines[line - 1][col - 1:].startswith(v)):
+                    got = lines[line - 1][col - 1:col - 1 + len(v)] if 1 <= line <= len(lines) else None
+                    res["spec_failures"].append({"what": "token %s %r is reported at %d:%d, where the text reads %r" % (ty, v, line, col, got),
+                                                 "text": t})
+                    break
         mt = [x[:4] for x in m["tokens"]]
         if mt != r["tokens"] or m["warnings"] != r["warnings"] or m["pos"] != r["pos"] or m["oob"]:
             k = next((i for i, (a, b) in enumerate(zip(mt, r["tokens"])) if a != b), min(len(mt), len(r["tokens"])))
